@@ -357,6 +357,13 @@ impl Prop for C06 {
                 steps.push(WStep::Enq(gen_recipe(rng, 2, 24)));
             }
         }
+        if rng.chance(1, 60) {
+            // a long run of interrupted writes with output pending (dozens in a row are still not an error)
+            steps.push(WStep::Enq(gen_recipe(rng, 2, 64)));
+            for _ in 0..rng.range(30, 300) {
+                steps.push(WStep::Wr(WrOp::Eintr));
+            }
+        }
         for i in 0..nsteps {
             let want_enq = if burst && i < 4 { true } else { rng.chance(1, 3) };
             if duplex && rng.chance(1, 5) {
